@@ -8,6 +8,8 @@ import (
 	"sync"
 
 	"verif/lib"
+
+	"github.com/aml-org/amf-custom-validator/pkg"
 )
 
 // childMain: small one-shot helpers run in fresh processes.
@@ -15,6 +17,25 @@ import (
 //	child report <profile-file> <data-file>          prints the report (fixed clock) or "ERROR: ..." (exit 0 either way)
 //	child conc <profile-file> <data-file> <n>        n goroutines validate the same pair; prints the distinct sha256 digests seen
 func childMain(args []string) {
+	if len(args) == 2 && (args[0] == "generate" || args[0] == "normalize") {
+		// the library's own answer, from a fresh process (generated names are numbered per process)
+		b, err := os.ReadFile(args[1])
+		if err != nil {
+			os.Exit(2)
+		}
+		var out string
+		if args[0] == "generate" {
+			out, err = pkg.VerifGenerateRego(string(b))
+		} else {
+			out, err = pkg.VerifNormalize(string(b))
+		}
+		if err != nil {
+			fmt.Print("ERROR: " + err.Error())
+			return
+		}
+		fmt.Print(out)
+		return
+	}
 	if len(args) < 3 {
 		fmt.Fprintln(os.Stderr, "child: bad arguments")
 		os.Exit(2)
